@@ -1367,7 +1367,7 @@ def unwind_rule(ctx, P, fns, floor=10, only_readers=True, extra_allocs=(), extra
                 ctx.check(r, ok, key(f, "%s:temporary#%d" % (name, n)), f.where(a), "the temporary buffer `%s` allocated here is not released on every path to the function's exits" % name)
 
 
-DESTRUCTORS = ("bin_mdef_free", "tmat_free", "gauden_free", "senone_free", "ms_mgau_free", "ptm_mgau_free", "s2_semi_mgau_free")
+DESTRUCTORS = ("acmod_free", "bin_mdef_free", "tmat_free", "gauden_free", "senone_free", "ms_mgau_free", "ptm_mgau_free", "s2_semi_mgau_free")
 
 
 def partial_rule(ctx, P):
